@@ -25,7 +25,7 @@ Theorem C15_layout_2d :
 Proof. exact layout_2d_thm. Qed.
 Print Assumptions C15_layout_2d.
 
-(** 2-d with dims ordered (X, Y) (Y axis position 1, since fix 43d71f8): the (w, h) array is
+(** 2-d with dims ordered (X, Y) (Y axis position 1, since fix 22d302d): the (w, h) array is
     transposed, input sample (x, y) becomes row y, column x *)
 Theorem C15_layout_2d_xy :
   forall h w b y x,
